@@ -49,15 +49,13 @@ pub fn on_death(c: &Case, d: &ChildDeath, allowed: &features::Allowed) -> Outcom
     let val = c.vals.get(vi).unwrap_or(&c.vals[0]);
     let feats = features::scan(&c.ty, val, enc);
     let sh = features::blame(&feats, allowed).map(|f| f.name().to_string()).unwrap_or_else(|| generic_shape(&c.ty));
-    let what = match d.refused_alloc {
-        Some(n) => format!(
-            "process aborted while decoding dust-dds's own output ({}): a single allocation of {n} bytes was requested; type {}; value {}",
-            enc.name(),
-            describe(&c.ty),
-            short(val)
-        ),
-        None => format!("process died ({}) while evaluating ({}); type {}; value {}", d.exit, enc.name(), describe(&c.ty), short(val)),
-    };
+    let what = format!(
+        "evaluator process died ({}) while decoding dust-dds's own output ({}): signal 6 = abort on a failed giant allocation, signal 26 = per-case CPU allowance exceeded; type {}; value {}",
+        d.exit,
+        enc.name(),
+        describe(&c.ty),
+        short(val)
+    );
     let mut o = Outcome { classes: type_classes(&c.ty), evaluations: 1, nontrivial: nontrivial_type(&c.ty), ..Default::default() };
     o.fail(format!("C09:roundtrip:{}:{sh}", enc.vname()), what);
     o
